@@ -1,5 +1,5 @@
 (* C09 driver (C01 format plus the assigned amount and a permissive flag).
-   (journal ID (bucket HEX|-) (xact (post ACCTHEX KIND AMT COST LOT) ...) ...)
+   (journal ID (permissive B) [(auto ..)] (xact (post ACCTHEX KIND AMT COST LOT ASSIGNED) ...) | (eof) ...)   KIND = R V B D
      AMT  = - | (NUM DEN PREC KEYHEX)          KEYHEX = commodity key (symbol, or symbol~{lot}) or -
      COST = - | (u NUM DEN PREC SYMHEX) | (t NUM DEN PREC SYMHEX)
      LOT  = - | (NUM DEN PREC SYMHEX)
@@ -10,6 +10,7 @@ let err_name = function
   | EUnbalanced -> "Unbalanced" | ETwoNulls -> "TwoNulls" | ENullLeft -> "NullLeft"
   | ECostSameComm -> "CostSameComm" | EDivZero -> "DivZero" | EDiffComm -> "DiffComm"
   | EAssertOff -> "AssertOff" | ENullAmt -> "NullAmt"
+  | EBadOp -> "MultiComm"          (* diff.to_amount() of a difference in several commodities *)
   | _ -> "Other"
 
 let comm_of a = if a = "-" then None else Some (str_of_hex a)
@@ -35,11 +36,12 @@ let post_of cp = function
         | L [A "t"; n; d; p; k], Some a' ->
           (match amt_of true (L [n; d; p; k]) with Some t -> Some (cost_total t a') | None -> None)
         | _ -> failwith "cost") in
+    { d_deferred = (kind = "D"); d_w =
     { w_post = { p_acct = str_of_hex (atom acct);
-      p_kind = (match kind with "R" -> PReal | "V" -> PVirtual | "B" -> PBalVirtual | _ -> failwith "kind");
+      p_kind = (match kind with "R" | "D" -> PReal | "V" -> PVirtual | "B" -> PBalVirtual | _ -> failwith "kind");
       p_amt = a; p_cost = c; p_lotprice = lotp;
       p_calculated = false; p_generated = false; p_cost_calculated = false };
-      w_assigned = amt_of false asg }
+      w_assigned = amt_of false asg } }
   | _ -> failwith "post"
 
 let show_post (p : post) =
@@ -68,14 +70,20 @@ let handle line =
               | _ -> failwith "rule") rs, xs
         | xs -> [], xs) in
     let cp0 _ = Z0 in
-    let xs = List.map (function L (A "xact" :: ps) -> List.map (post_of cp0) ps | _ -> failwith "xact") xacts in
+    (* (eof) between transactions: the end of the file of one -f option; KIND D = a deferred posting <Account> *)
+    let xs = List.map (function
+        | L (A "xact" :: ps) -> JXact (List.map (post_of cp0) ps)
+        (* (xact-in (N1HEX .. NkHEX) posts): written inside `apply account N1` .. `apply account Nk` *)
+        | L (A "xact-in" :: L stack :: ps) -> JXact (under (List.map (fun a -> str_of_hex (atom a)) stack) (List.map (post_of cp0) ps))
+        | L [A "eof"] -> JEndOfFile
+        | _ -> failwith "xact") xacts in
     let run ord =
       List.mapi (fun i r ->
           match r with
           | Ok (Accepted ps) -> Printf.sprintf "%s %d OK %s" id i (String.concat ";" (List.map show_post ps))
           | Ok Ignored -> Printf.sprintf "%s %d IGNORED" id i
           | Err e -> Printf.sprintf "%s %d ERR %s" id i (err_name e))
-        (run_journal_x (auto_ext rules) ord permissive [] [] xs) in
+        (run_journal_d (auto_ext rules) ord permissive [] [] [] xs) in
     let r1 = run false and r2 = run true in
     List.map2 (fun a b -> if a = b then a else
                   (let i = String.index_from a (String.index a ' ' + 1) ' ' in
